@@ -566,7 +566,8 @@ def g_idle(rng, family=None):
             ops.append({"op": "wait", "futs": "all"})
         ops.append({"op": "sleep", "d": round(min(1.2, tmo * rng.choice([0.5, 1.0, 1.5, 3.0])), 4)})
         if kind == "reusable" and rng.random() < 0.3:
-            ops.append({"op": "get_reusable", "ex": "e", "kw": dict(kw, max_workers=rng.randint(1, 6))})
+            mw = rng.randint(1, 6)  # the size in force from here on
+            ops.append({"op": "get_reusable", "ex": "e", "kw": dict(kw, max_workers=mw)})
     if mw >= 2 and rng.random() < 0.5:
         # a task that needs a sibling submitted after the idle workers have left: only completes if the pool is topped up again
         ops += [{"op": "wait", "futs": "all"},
